@@ -19,6 +19,7 @@ mod mod_test;
 static FORIN_STATE_KEY: &str = "forin";
 static META_INFO_STATE_KEY: &str = "meta_info";
 static CALL_STACK_STATE_KEY: &str = "call_stack";
+static LOOP_BACK_STATE_KEY: &str = "loop_back";
 
 #[derive(Debug, Clone)]
 struct ForInMetaInfo {
@@ -257,6 +258,23 @@ fn store_call_info(call_info: &CallInfo, state: &mut HashMap<String, StateValue>
     call_info_stack.push(StateValue::SubState(call_info_state));
 }
 
+fn set_loop_back_marker(line: usize, state: &mut HashMap<String, StateValue>) {
+    let forin_state = get_core_sub_state_for_command(state, FORIN_STATE_KEY.to_string());
+    forin_state.insert(
+        LOOP_BACK_STATE_KEY.to_string(),
+        StateValue::UnsignedNumber(line),
+    );
+}
+
+fn take_loop_back_marker(state: &mut HashMap<String, StateValue>) -> Option<usize> {
+    let forin_state = get_core_sub_state_for_command(state, FORIN_STATE_KEY.to_string());
+
+    match forin_state.remove(LOOP_BACK_STATE_KEY) {
+        Some(StateValue::UnsignedNumber(line)) => Some(line),
+        _ => None,
+    }
+}
+
 fn get_next_iteration(
     iteration: usize,
     handle: String,
@@ -315,7 +333,15 @@ impl Command for ForInCommand {
         if context.arguments.len() != 3 || context.arguments[1] != "in" {
             CommandResult::Error("Invalid for/in statement".to_string())
         } else {
-            let call_info = match pop_call_info_for_line(context.line, context.state, false) {
+            // only the end of the loop body jumps back here; any other arrival starts the loop afresh
+            // (an earlier run of this loop may have been left by return/error without reaching its end)
+            let looping_back = take_loop_back_marker(context.state) == Some(context.line);
+            let stored_call_info = if looping_back {
+                pop_call_info_for_line(context.line, context.state, false)
+            } else {
+                None
+            };
+            let call_info = match stored_call_info {
                 Some(call_info) => call_info,
                 None => {
                     let forin_meta_info_result = get_or_create_forin_meta_info_for_line(
@@ -407,6 +433,7 @@ impl Command for EndForInCommand {
             Some(call_info) => {
                 let next_line = call_info.meta_info.start;
                 store_call_info(&call_info, context.state);
+                set_loop_back_marker(next_line, context.state);
                 CommandResult::GoTo(None, GoToValue::Line(next_line))
             }
             None => CommandResult::Error(
